@@ -331,6 +331,44 @@ class SolveLoop:
         return out
 
 
+def deref(fn: ast.FunctionDef, node: ast.AST) -> ast.AST:
+    """Copy of `node` in which every local that the function binds exactly once to a pure attribute
+    chain (`x = self.a.b`) is replaced by that chain (alias resolution for shape-based rules)."""
+    import copy
+
+    defs: dict[str, list] = {}
+    for s in ast.walk(fn):
+        if isinstance(s, (ast.Assign, ast.AugAssign, ast.AnnAssign, ast.For, ast.With, ast.NamedExpr)):
+            tg = s.targets if isinstance(s, ast.Assign) else [getattr(s, "target", None)] if not isinstance(s, ast.With) else [i.optional_vars for i in s.items]
+            for t in tg:
+                if t is None:
+                    continue
+                for x in ast.walk(t):
+                    if isinstance(x, ast.Name):
+                        defs.setdefault(x.id, []).append(s)
+    params = {a.arg for a in fn.args.args + fn.args.kwonlyargs}
+
+    def pure_chain(v):
+        while isinstance(v, ast.Attribute):
+            v = v.value
+        return isinstance(v, ast.Name) and v.id == "self"
+
+    table = {}
+    for name, ds in defs.items():
+        if name in params or len(ds) != 1 or not isinstance(ds[0], ast.Assign) or len(ds[0].targets) != 1:
+            continue
+        if isinstance(ds[0].targets[0], ast.Name) and isinstance(ds[0].value, ast.Attribute) and pure_chain(ds[0].value):
+            table[name] = ds[0].value
+
+    class R(ast.NodeTransformer):
+        def visit_Name(self, n):
+            if isinstance(n.ctx, ast.Load) and n.id in table:
+                return copy.deepcopy(table[n.id])
+            return n
+
+    return R().visit(copy.deepcopy(node)) if table else node
+
+
 def returned_expr(fn: ast.FunctionDef):
     """The expression a function returns: its single `return <expr>`, looked through one local
     binding (`r = <expr>; return r`).  None if there is not exactly one value-returning return."""
